@@ -807,7 +807,10 @@ def run(ctx):
         if mres is not None:
             m = mres[off + i]
             mm = ("OK " + dec_path(m.split(" ")[1]).replace(base, "{B}")) if m.startswith("OK") else m
-            if mm == "RAISE" and not oc.startswith("RAISE") and ".." in u.split("/"):
+            impl_u = "RAISE" if oc.startswith("RAISE") else oc
+            cyc = mm == "RAISE" or oc.startswith("RAISE:RuntimeError")
+            if mm != impl_u and cyc and ".." in u.split("/") and (mm in ("RAISE", "REFUSED")):
+                # a link cycle followed by '..' (possibly swallowing a NUL component): CPython normalises the unresolved remainder
                 ctx.hist("out_of_model", "source URI: cycle followed by '..' (CPython resolve returns, model raises)")
             elif mm != ("RAISE" if oc.startswith("RAISE") else oc):
                 ctx.correspondence_failure(dict(case, model=mm), "validate_source_uri differs from the model")
